@@ -209,6 +209,134 @@ func baseFieldLoads(v ssa.Value, seen map[ssa.Value]bool, out map[string]bool) {
 	}
 }
 
+// writtenFieldOrigins: the struct fields whose slice/map value is the one written through v.  Like
+// baseFieldLoads, but a load through a pointer parameter (a helper or a pointer-receiver method of a named
+// slice type that is handed &x.f) is followed to the field addresses passed at the function's call sites; when
+// the pointer arrives through an interface or a closure and cannot be followed, every field in byType whose type
+// is the pointee's type counts.  A load that directly follows a store of another value to the same address in
+// the same block (`*v = make(...); copy(*v, …)`) is followed to that value instead.
+func writtenFieldOrigins(e *Effects, fn *ssa.Function, v ssa.Value, byType map[string]types.Type, seen map[ssa.Value]bool, out map[string]bool, depth int) {
+	if v == nil || seen[v] || depth > 4 {
+		return
+	}
+	seen[v] = true
+	switch x := v.(type) {
+	case *ssa.Slice:
+		writtenFieldOrigins(e, fn, x.X, byType, seen, out, depth)
+	case *ssa.IndexAddr:
+		writtenFieldOrigins(e, fn, x.X, byType, seen, out, depth)
+	case *ssa.ChangeType:
+		writtenFieldOrigins(e, fn, x.X, byType, seen, out, depth)
+	case *ssa.Convert:
+		writtenFieldOrigins(e, fn, x.X, byType, seen, out, depth)
+	case *ssa.Phi:
+		for _, ed := range x.Edges {
+			writtenFieldOrigins(e, fn, ed, byType, seen, out, depth)
+		}
+	case *ssa.UnOp:
+		if x.Op.String() != "*" {
+			return
+		}
+		// a store to the same address just before, in the same block, with no call in between
+		if b := x.Block(); b != nil {
+			idx := -1
+			for i, ins := range b.Instrs {
+				if ins == ssa.Instruction(x) {
+					idx = i
+				}
+			}
+			for i := idx - 1; i >= 0; i-- {
+				if st, ok := b.Instrs[i].(*ssa.Store); ok && st.Addr == x.X {
+					writtenFieldOrigins(e, fn, st.Val, byType, seen, out, depth)
+					return
+				}
+				if cl, ok := b.Instrs[i].(*ssa.Call); ok {
+					if _, isB := cl.Call.Value.(*ssa.Builtin); !isB {
+						break
+					}
+				}
+				if _, ok := b.Instrs[i].(*ssa.Store); ok {
+					break
+				}
+			}
+		}
+		pointerOrigins(e, fn, x.X, byType, map[ssa.Value]bool{}, out, depth)
+	}
+}
+
+// pointerOrigins: which struct fields may the pointer a (to a slice/map cell) address?
+func pointerOrigins(e *Effects, fn *ssa.Function, a ssa.Value, byType map[string]types.Type, seen map[ssa.Value]bool, out map[string]bool, depth int) {
+	if a == nil || seen[a] || depth > 4 {
+		return
+	}
+	seen[a] = true
+	if f := fieldOfAddr(a); f != "" {
+		out[f] = true
+		return
+	}
+	byTypeFallback := func() {
+		pt, ok := a.Type().Underlying().(*types.Pointer)
+		if !ok {
+			return
+		}
+		for f, t := range byType {
+			if types.Identical(t, pt.Elem()) {
+				out[f] = true
+			}
+		}
+	}
+	switch x := a.(type) {
+	case *ssa.Parameter:
+		idx := -1
+		for i, prm := range fn.Params {
+			if prm == x {
+				idx = i
+			}
+		}
+		sites := e.callSitesOf[fn]
+		if idx < 0 || len(sites) == 0 {
+			byTypeFallback()
+			return
+		}
+		for _, site := range sites {
+			cc := site.Common()
+			var arg ssa.Value
+			switch {
+			case cc.IsInvoke():
+				if idx == 0 {
+					byTypeFallback() // receiver arrives inside an interface value
+					continue
+				}
+				if idx-1 < len(cc.Args) {
+					arg = cc.Args[idx-1]
+				}
+			case cc.StaticCallee() == fn:
+				if idx < len(cc.Args) {
+					arg = cc.Args[idx]
+				}
+			default:
+				byTypeFallback() // called through a function value / bound method
+				continue
+			}
+			if arg == nil {
+				byTypeFallback()
+				continue
+			}
+			pointerOrigins(e, site.Parent(), arg, byType, map[ssa.Value]bool{}, out, depth+1)
+		}
+	case *ssa.Phi:
+		for _, ed := range x.Edges {
+			pointerOrigins(e, fn, ed, byType, seen, out, depth)
+		}
+	case *ssa.Alloc, *ssa.Global:
+		// a local or a package variable cell: not a struct field
+	case *ssa.FieldAddr, *ssa.IndexAddr:
+		// a field of a non-struct-pointer base / an element: not one of the shared fields
+	default:
+		byTypeFallback()
+	}
+}
+
 // rulePackageState: package variables are written only in init, their storage
 // is never written in place, and fields that share package storage are never
 // written in place either.
@@ -233,8 +361,14 @@ func rulePackageState(p *Prog, c *Check, rule string) {
 	shared := sharedFields(p, e)
 	sharedBad := map[string][]string{}
 	sharedSet := map[string]bool{}
+	sharedTypes := map[string]types.Type{} // shared field -> its type (for pointers whose origin cannot be followed)
 	for _, sf := range shared {
 		sharedSet[sf.name] = true
+		if st, ok := sf.ins.(*ssa.Store); ok {
+			if pt, ok := st.Addr.Type().Underlying().(*types.Pointer); ok {
+				sharedTypes[sf.name] = pt.Elem()
+			}
+		}
 	}
 	for _, fn := range p.AllFuncs() {
 		isInit := fn.Name() == "init" && fn.Parent() == nil
@@ -287,7 +421,7 @@ func rulePackageState(p *Prog, c *Check, rule string) {
 					continue
 				}
 				fl := map[string]bool{}
-				baseFieldLoads(dst, map[ssa.Value]bool{}, fl)
+				writtenFieldOrigins(e, fn, dst, sharedTypes, map[ssa.Value]bool{}, fl, 0)
 				for f := range fl {
 					if sharedSet[f] {
 						sharedBad[f] = append(sharedBad[f], fmt.Sprintf("%s at %s in %s", kind, posOf(p, ins), qname(fn)))
